@@ -19,22 +19,9 @@
     64-byte transfer unit and a sender the completion can be returned to; and
     no third party talks on the network.  Port names are arbitrary but distinct
     where akita requires it. *)
-From VMem Require Import Pmc PmcLemmas PmcProofs.
+From VMem Require Import Pmc PmcLemmas PmcProofs PmcExamples.
 From VDrv Require Import Migration MigrationProofs.
 Open Scope N_scope.
-
-Section Names.
-Variables ra ca la ma rb cb lb mb : N.
-Variables sa0 sb0 : store.
-Hypothesis Hra : ra <> 0.
-Hypothesis Hrb : rb <> 0.
-Hypothesis Hrab : ra <> rb.
-Hypothesis Hma : ma <> 0 /\ ma <> la.
-Hypothesis Hmb : mb <> 0 /\ mb <> lb.
-
-Notation init := (s_init ra ca la ma rb cb lb mb sa0 sb0).
-Notation ok := (ok_ev ca rb).
-Notation copy := (copy_req sb0).
 
 (** [completed s]: the accepted requests for which a completion response has
     been created (sent, or waiting for the control port).  Whenever A is not in
@@ -43,42 +30,46 @@ Notation copy := (copy_req sb0).
     bytes as they were ([sb0]; B's memory never changes), every other byte
     untouched.  During a transfer the only deviation is inside that page's
     destination range, each byte still old or already new.  No panic. *)
-Theorem pmc_copies_page : forall evs, Forall ok evs ->
-  let s := run init evs in
+Theorem pmc_copies_page : forall ra ca la ma rb cb lb mb sa0 sb0,
+  names_ok ra la ma rb lb mb ->
+  forall evs, Forall (ok_ev ca rb) evs ->
+  let s := run (s_init ra ca la ma rb cb lb mb sa0 sb0) evs in
   crashed (pa s) = false /\ crashed (pb s) = false /\
   (forall a, stb s a = sb0 a) /\
   match cur_mig (pa s) with
-  | None => forall a, sta s a = fold_left copy (completed s) sa0 a
+  | None => forall a, sta s a = fold_left (copy_req sb0) (completed s) sa0 a
   | Some r => forall a,
-      sta s a = fold_left copy (completed s) sa0 a \/
+      sta s a = fold_left (copy_req sb0) (completed s) sa0 a \/
       (mg_wr r <= a < mg_wr r + mg_size r /\ sta s a = sb0 (mg_rd r + (a - mg_wr r)))
   end.
 Proof.
-  intros evs Hok s.
-  destruct (run_inv ra ca la ma rb cb lb mb sa0 sb0 Hra Hrb Hrab Hma Hmb evs _ Hok
-              (init_inv2 ra ca la ma rb cb lb mb sa0 sb0)) as [H _].
-  destruct (store_of_inv _ _ _ _ _ _ _ _ _ _ _ H) as [Hb Ha].
-  repeat split; try apply H; assumption.
+  intros ra ca la ma rb cb lb mb sa0 sb0 (Hra & Hrb & Hrab & Hma & Hmb) evs Hok s.
+  pose proof (reach ra ca la ma rb cb lb mb sa0 sb0 Hra Hrb Hrab Hma Hmb evs Hok) as H.
+  fold s in H.
+  destruct (store_of_inv ra ca la ma rb cb lb mb sa0 sb0 Hra Hrb Hrab Hma Hmb s H) as [Hb Ha].
+  split; [apply H|]. split; [apply H|]. split; assumption.
 Qed.
 Print Assumptions pmc_copies_page.
 
-(** what [copy] does: destination range := source range, nothing else *)
-Theorem copy_req_spec : forall st r a,
-  (mg_wr r <= a < mg_wr r + mg_size r -> copy st r a = sb0 (mg_rd r + (a - mg_wr r))) /\
-  (a < mg_wr r \/ mg_wr r + mg_size r <= a -> copy st r a = st a).
-Proof. exact (copy_req_spec sb0). Qed.
-Print Assumptions copy_req_spec.
+(** what [copy_req] does: destination range := source range, nothing else *)
+Theorem copy_req_is_a_page_copy : forall sb0 st r a,
+  (mg_wr r <= a < mg_wr r + mg_size r -> copy_req sb0 st r a = sb0 (mg_rd r + (a - mg_wr r))) /\
+  (a < mg_wr r \/ mg_wr r + mg_size r <= a -> copy_req sb0 st r a = st a).
+Proof. exact copy_spec. Qed.
+Print Assumptions copy_req_is_a_page_copy.
 
 (** The special case of one request: once its completion exists, the page has
     arrived and nothing else moved, in either memory. *)
-Theorem pmc_copies_one_page : forall evs r, Forall ok evs ->
-  let s := run init evs in
+Theorem pmc_copies_one_page : forall ra ca la ma rb cb lb mb sa0 sb0,
+  names_ok ra la ma rb lb mb ->
+  forall evs r, Forall (ok_ev ca rb) evs ->
+  let s := run (s_init ra ca la ma rb cb lb mb sa0 sb0) evs in
   g_acc s = [r] -> ndone s = 1%nat ->
   (forall a, mg_wr r <= a < mg_wr r + mg_size r -> sta s a = sb0 (mg_rd r + (a - mg_wr r))) /\
   (forall a, a < mg_wr r \/ mg_wr r + mg_size r <= a -> sta s a = sa0 a) /\
   (forall a, stb s a = sb0 a).
 Proof.
-  intros evs r Hok s.
+  intros ra ca la ma rb cb lb mb sa0 sb0 (Hra & Hrb & Hrab & Hma & Hmb) evs r Hok.
   exact (one_page ra ca la ma rb cb lb mb sa0 sb0 Hra Hrb Hrab Hma Hmb evs r Hok).
 Qed.
 Print Assumptions pmc_copies_one_page.
@@ -87,14 +78,16 @@ Print Assumptions pmc_copies_one_page.
     control port is exactly one response per completed request, in request
     order, addressed to the request's sender; never more responses than
     accepted requests; B reports nothing. *)
-Theorem pmc_completion_once : forall evs, Forall ok evs ->
-  let s := run init evs in
+Theorem pmc_completion_once : forall ra ca la ma rb cb lb mb sa0 sb0,
+  names_ok ra la ma rb lb mb ->
+  forall evs, Forall (ok_ev ca rb) evs ->
+  let s := run (s_init ra ca la ma rb cb lb mb sa0 sb0) evs in
   g_done s ++ ctl_out (pa s) ++ map MMigRsp (olist (to_ctrl (pa s))) =
     map (fun r => MMigRsp (mkMigRsp ca (mg_src r))) (completed s) /\
   length (completed s) = ndone s /\ (ndone s <= length (g_acc s))%nat /\
   ctl_out (pb s) = [].
 Proof.
-  intros evs Hok s.
+  intros ra ca la ma rb cb lb mb sa0 sb0 (Hra & Hrb & Hrab & Hma & Hmb) evs Hok.
   exact (completion_once ra ca la ma rb cb lb mb sa0 sb0 Hra Hrb Hrab Hma Hmb evs Hok).
 Qed.
 Print Assumptions pmc_completion_once.
@@ -102,18 +95,18 @@ Print Assumptions pmc_completion_once.
 (** Requests are neither lost nor duplicated nor reordered: the accepted
     requests are, in order, the completed ones, then the one being served (if
     any), then those still waiting in the control port. *)
-Theorem pmc_requests_queue : forall evs, Forall ok evs ->
-  let s := run init evs in
+Theorem pmc_requests_queue : forall ra ca la ma rb cb lb mb sa0 sb0,
+  names_ok ra la ma rb lb mb ->
+  forall evs, Forall (ok_ev ca rb) evs ->
+  let s := run (s_init ra ca la ma rb cb lb mb sa0 sb0) evs in
   exists waiting,
     ctl_in (pa s) = map MMigReq waiting /\
     g_acc s = completed s ++ olist (cur_mig (pa s)) ++ waiting.
 Proof.
-  intros evs Hok s.
+  intros ra ca la ma rb cb lb mb sa0 sb0 (Hra & Hrb & Hrab & Hma & Hmb) evs Hok.
   exact (requests_queue ra ca la ma rb cb lb mb sa0 sb0 Hra Hrb Hrab Hma Hmb evs Hok).
 Qed.
 Print Assumptions pmc_requests_queue.
-
-End Names.
 
 (** ** Observations about the code, outside the property's premises *)
 
@@ -157,23 +150,29 @@ Proof. exact demo_ok. Qed.
 
 (** ** Driver side: Driver.preparePageForMigration *)
 
-(** The virtual page is re-homed to a fresh physical page of the target
-    device, marked migrating; the old physical address is returned; every
-    other mapping of the page table, and every other device's allocator, is
-    unchanged; the fresh page does not overlap any page handed out before. *)
+(** For a page-aligned virtual address that is mapped, and a target device
+    with a free page: no panic; the old physical address is returned; the
+    virtual page now maps to a page of the target device (gpu+1), marked
+    migrating, whose physical address was the head of that device's free list
+    and has left it; every other (process, page) lookup is unchanged; every
+    other device's free list is unchanged.  (The old physical page is NOT
+    returned to its device: see docs/C19.md.) *)
 Theorem migration_updates_only_target : forall d pid va gpu pg,
-  pt_find (d_pt d) pid va = Some pg ->
+  pt_align d va = va ->
+  pt_find_in d (d_pt d) pid va = Some pg ->
   dev_can_alloc d (gpu + 1) = true ->
   match prepare_page_for_migration d pid va gpu with
   | None => False
   | Some (d', newpage, old) =>
     old = pg_paddr pg /\
-    pt_find (d_pt d') pid va = Some newpage /\
+    pt_find_in d' (d_pt d') pid va = Some newpage /\
     pg_device newpage = gpu + 1 /\ pg_migrating newpage = true /\
-    pg_vaddr newpage = va /\ pg_pid newpage = pid /\
-    fresh_page d (gpu + 1) (pg_paddr newpage) /\
-    (forall pid' va', (pid', va') <> (pid, va) -> pt_find (d_pt d') pid' va' = pt_find (d_pt d) pid' va') /\
-    (forall dev, dev <> gpu + 1 -> d_alloc d' dev = d_alloc d dev)
+    pg_vaddr newpage = va /\ pg_pid newpage = pid /\ pg_valid newpage = true /\
+    d_alloc d (gpu + 1) = pg_paddr newpage :: d_alloc d' (gpu + 1) /\
+    (forall pid' va', (pid', pt_align d va') <> (pid, va) ->
+       pt_find_in d' (d_pt d') pid' va' = pt_find_in d (d_pt d) pid' va') /\
+    (forall dev, dev <> gpu + 1 -> d_alloc d' dev = d_alloc d dev) /\
+    d_log2 d' = d_log2 d
   end.
 Proof. exact migration_only_target. Qed.
 Print Assumptions migration_updates_only_target.
